@@ -214,7 +214,7 @@ def run(ctx, cases):
     for d in dirs:
         c = b.by_dir[d]
         gen = os.path.join(b.root, d, 'wire_gen.go')
-        txt = open(gen).read() if os.path.exists(gen) else ''
+        txt = open(gen, errors='replace').read() if os.path.exists(gen) else ''
         pr = probes.get(c.ci, {})
         allobs.append({'ci': c.ci, 'key': c.case['key'], 'cmd': 'copy', 'declared': declared_names(txt), 'expected': expected[d],
                        'built_default': obs[d]['built'], 'frame_ok': obs[d].get('frame_ok', True), 'built_inject': 'ok' if d in good else 'na',
